@@ -77,6 +77,29 @@ func loadProgram(repo, verifDir string) (*Prog, error) {
 	if err := p.CS.LoadAll(repo, p.ModPath, verifDir+"/contracts/assumed"); err != nil {
 		return nil, err
 	}
+	// resolve package aliases in `implements` clauses through the imports of the contract's package
+	for _, fc := range p.CS.Funcs {
+		for i, im := range fc.Implements {
+			if _, ok := p.CS.Types[im]; ok {
+				continue
+			}
+			j := strings.LastIndex(im, ".")
+			if j < 0 {
+				continue
+			}
+			alias, name := im[:j], im[j+1:]
+			if k := strings.LastIndex(alias, "."); k >= 0 && strings.HasPrefix(alias, fc.Spec.PkgPath) {
+				alias = alias[len(fc.Spec.PkgPath)+1:] // expandQualified prefixed the package path
+			}
+			if pk, ok := p.Pkgs[fc.Spec.PkgPath]; ok {
+				for _, imp := range pk.Types.Imports() {
+					if imp.Name() == alias {
+						fc.Implements[i] = imp.Path() + "." + name
+					}
+				}
+			}
+		}
+	}
 	return p, nil
 }
 
